@@ -240,3 +240,23 @@ Definition answers (name : string) (args : list term) : option (list (list term)
                         end
                     end) (Some []) cs
   end.
+
+(** calls for which ISO demands a representation_error(character_code): a
+    character code outside 0..16#10FFFF (whatever its low 32 bits are) given
+    where the character or the atom is to be computed *)
+Definition bad_code (z : Z) : bool := (z <? 0) || (1114111 <? z).
+Fixpoint has_bad_code (fuel : nat) (l : term) : bool :=
+  match fuel with
+  | O => false
+  | S f => match l with
+           | Cmp "." [Int z; tl] => bad_code z || has_bad_code f tl
+           | Cmp "." [_; tl] => has_bad_code f tl
+           | _ => false
+           end
+  end.
+Definition must_error (name : string) (args : list term) : bool :=
+  if String.eqb name "char_code" then
+    match args with [Var _; Int z] => bad_code z | _ => false end
+  else if String.eqb name "atom_codes" then
+    match args with [Var _; l] => has_bad_code 1000 l | _ => false end
+  else false.
